@@ -103,9 +103,10 @@ def scale_tree(node, sc):
         scale_tree(kid, sc)
 
 
-def make_case(ctx, idx):
+def make_case(ctx, idx, force_mode=None):
     rng = ctx.rng
-    mode = rng.choice(["solid2", "solid2", "solid2", "solid1", "solid3", "prod", "prod", "bdry", "bdry", "bdry-adjacent", "bdry-contained", "far"])
+    mode = force_mode or rng.choice(["solid2", "solid2", "solid2", "solid1", "solid3", "prod", "prod", "bdry", "bdry", "bdry-adjacent", "bdry-contained", "far"])
+    thin_case = False
     params = rng.choice([[], ["t"], ["t", "D"], ["t", "D"]])
     g = Gen(rng, params=params, p_default=0.5)   # parameter functions with a defaulted argument: supplied values must win
     depth = rng.choice([1, 2, 2, 3, 3]) if ctx.quick else rng.choice([1, 2, 3, 3, 4])
@@ -131,11 +132,27 @@ def make_case(ctx, idx):
         g = Gen(rng, params=[])
         prim = g.prim(rng.choice(["x", "x", "x", "z", "y"]))
         scale_tree(prim, Fr(2) ** rng.choice([-8, -6, -4, -2, 0]))
+        make_thin = prim.kind in ("par", "tri") and rng.random() < 0.7
+        thin_exp = rng.choice([5, 7, 9])
         off = [Fr(rng.choice([0, 1, -3, 30, 60, -500, 1000, 2000])) for _ in range(3)]
         for i_, pf in enumerate(prim.pfs):
             if prim.kind in ("circle", "sphere") and i_ == 1:
                 continue            # the radius is not a position
             pf.terms = [geomgen.c(geomgen.pt_eval(t, {}) + off[j]) for j, t in enumerate(pf.terms)]
+        if make_thin:
+            # long and thin (aspect ratio 2^5 … 2^9), edges not axis-parallel in general: the tolerance of the barycentric tests
+            # is governed by the LONGER edge (largest * L / |det|).  The moved corner is rounded to float32 (the library stores
+            # float32 corners) and the short edge must stay well above the float32 resolution at that place (64 ulp).
+            o_, c1_, c2_ = [pf_.eval({}) for pf_ in prim.pfs]
+            th = Fr(1, 2 ** thin_exp)
+            n2_ = [f32(o_[j] + th * (c2_[j] - o_[j])) for j in range(2)]
+            d1_ = [c1_[j] - o_[j] for j in range(2)]
+            d2_ = [n2_[j] - o_[j] for j in range(2)]
+            ulp_ = max(abs(v_) for p_ in (o_, c1_, n2_) for v_ in p_) / 2 ** 23
+            L_ = max(abs(d1_[0]) + abs(d1_[1]), abs(d2_[0]) + abs(d2_[1]))
+            if abs(d1_[0] * d2_[1] - d1_[1] * d2_[0]) > 64 * ulp_ * L_:
+                prim.pfs[2] = geomgen.PF([geomgen.c(v_) for v_ in n2_])
+                thin_case = True
         node = geomgen.Node("bdry", None, [], [prim]) if rng.random() < 0.6 else prim
     elif mode == "bdry-adjacent":
         # union of two parallelograms that share an edge (an L-shape / strip built from blocks)
@@ -242,29 +259,37 @@ def make_case(ctx, idx):
             extra += [({var: [f32(a) for a in p]}, env) for p in pts if len(p) == geomgen.DIM[var]]
         rng.shuffle(extra)
         rows += extra[: ctx.scale(40, 120)]
+    # rows on the integer lattice: evaluated once more as int64 / int32 query points (and all rows as float64), see dtype_pass
+    int_rows = []
+    if not far_case:
+        for i in range(24):
+            env = prow[i % len(prow)]
+            int_rows.append(len(rows))
+            rows.append(({var: [Fr(rng.randint(-4, 4)) for _ in range(geomgen.DIM[var])] for var in node.vars()}, env))
     shared_cut = bool(ring_rows) and node.kind == "bdry" and node.kids[0].kind == "cut"
     axis_par = False
     if shared_cut:
         o_, c1_, c2_ = [p_.eval({}) for p_ in node.kids[0].kids[0].pfs]
         axis_par = all(0 in (c_[0] - o_[0], c_[1] - o_[1]) for c_ in (c1_, c2_))
-    return dict(id=idx, mode=mode, scale=str(sc), tol=(far_tols(node) if far_case else None), shared_cut=shared_cut, axis_parallel=axis_par, adjacent=(node.kind == "bdry" and node.kids[0].kind == "union" and all(k.kind == "par" for k in node.kids[0].kids)
+    return dict(id=idx, mode=mode, scale=str(sc), int_rows=int_rows, thin=thin_case, tol=(far_tols(node) if far_case else None), shared_cut=shared_cut, axis_parallel=axis_par, adjacent=(node.kind == "bdry" and node.kids[0].kind == "union" and all(k.kind == "par" for k in node.kids[0].kids)
                                         and not node.free_vars() and bool(ring_rows)), ring_rows=ring_rows, dom=node.describe(), params=params,
                 rows=[({k_: [str(a) for a in v_] for k_, v_ in pt.items()}, {k_: [str(a) for a in v_] for k_, v_ in env.items()})
                       for pt, env in rows])
 
 
-def run_impl(case):
+def run_impl(case, qdtype=None, only=None):
     tp = common.use_repo()
     import torch
+    qdt = getattr(torch, qdtype) if qdtype else torch.float32
     node = geomgen.from_json(case["dom"])
-    # every fourth parameter-free 2-D case realises the variable 'x' as R1('xa')*R1('xb') and hands the query
+    # every second parameter-free (every fourth parameter-dependent) 2-D case realises the variable 'x' as R1('xa')*R1('xb') and hands the query
     # points over in the order (xb, xa): the domain has to pick its coordinates by NAME
     # (moved domains included: a Translate / Rotate over a space of several variables has to pick ITS columns by name too)
-    split = (node.vars() == ["x"] and not case["params"] and case.get("id", 0) % 4 == 2)
+    split = (node.vars() == ["x"] and case.get("id", 0) % 2 == 0 and (not case["params"] or case.get("id", 0) % 4 == 2))
     geomgen.SPLIT_VARS = {"x": ["xa", "xb"]} if split else {}
     try:
         dom = node.to_tp(tp)
-        rows = case["rows"]
+        rows = case["rows"] if only is None else [case["rows"][i] for i in only]
         vars_ = node.vars()
         if len(vars_) > 1 and case.get("id", 0) % 2 == 1:
             # the query points list the variables in another order than the domain's own space
@@ -283,7 +308,9 @@ def run_impl(case):
             else:
                 s_ = {1: tp.spaces.R1, 2: tp.spaces.R2, 3: tp.spaces.R3}[geomgen.DIM[name]](name)
             qspace = s_ if qspace is None else qspace * s_
-        pts = tp.spaces.Points(torch.tensor(cols, dtype=torch.float32), qspace)
+        if not qdt.is_floating_point:
+            cols = [[int(round(v)) for v in r] for r in cols]
+        pts = tp.spaces.Points(torch.tensor(cols, dtype=qdt), qspace)
         params = case["params"]
         if params:
             pspace = None
@@ -866,6 +893,69 @@ def kleene_all(cases, results, undecided, rep):
                      dict(dom=cs["dom"], expression=node.tokens(), point=pt, params=env))
 
 
+def compare_rows(cs, node, idxs, bools, replies, rep, label=""):
+    """the margin rule on the rows `idxs` of a case; returns the rows it could not decide"""
+    skipped = []
+    for ri_, got in zip(idxs, bools):
+        (pt, env), rl = cs["rows"][ri_], replies[ri_]
+        b, m = rl.split()
+        if b == "none":
+            rep.disagree("drivers/C05.lean contains: model rejects an input the implementation accepts",
+                         dict(dom=cs["dom"], point=pt, params=env), got, rl)
+            continue
+        mg = Fr(m)
+        if mg > MARGIN:
+            rep.count("decided-with-margin" + label)
+            if got != (b == "1"):
+                what = ("boundary membership" if cs["mode"] == "bdry" else "membership")
+                inp = dict(dom=cs["dom"], expression=node.tokens(), point=pt, params=env)
+                if label:
+                    inp["qdtype"] = label.strip(" ()").split()[0]
+                rep.fail(f"{what} test{label} answers {got} but the point is {'inside' if b == '1' else 'outside'} the denoted set "
+                         f"(exact evaluation, smallest comparison slack {float(mg):.3g})", inp)
+        else:
+            rep.count("within-margin(skipped)" + label)
+            skipped.append(ri_)
+    return skipped
+
+
+def dtype_pass(cs, node, replies, rep):
+    """The same rows handed over in ANOTHER dtype than float32: all rows as float64, the integer-lattice rows as int64 / int32
+    tensors (legal: a lattice of indices, pixel centres …).  The parameters stay float32 — a float parameter row must not be
+    cast to the dtype of the points.  The library refuses integer points for Parallelogram / Triangle with a RuntimeError
+    ("result type Float can't be cast …", an in-place subtraction) — a refusal, not a wrong answer: counted, not reported."""
+    if cs.get("alt_dtype"):
+        alts = [cs["alt_dtype"]]
+    else:
+        alts = ["float64"] if cs.get("id", 0) % 3 == 0 else []
+        alts.append(["int64", "int32"][cs.get("id", 0) % 2])
+    for alt in alts:
+        _dtype_pass(cs, node, replies, rep, alt)
+
+
+def _dtype_pass(cs, node, replies, rep, alt):
+    idxs = list(range(len(cs["rows"]))) if alt == "float64" else list(cs.get("int_rows") or [])
+    if cs.get("tol") or not idxs:
+        return
+    res = run_impl(cs, qdtype=alt, only=idxs)
+    label = f" ({alt} query points)"
+    rep.count("dtype-pass:" + alt)
+    if "error" in res:
+        if all(replies[i].startswith("none") for i in idxs):
+            return
+        if alt != "float64" and "can't be cast to the desired output type" in res["error"] and any(k in ("par", "tri") for k in node.kinds()):
+            rep.count("dtype-pass:integer points refused by Parallelogram/Triangle (RuntimeError)")
+            return
+        rep.fail(f"_contains raised {res['error']} for {alt} query points on a well-formed expression",
+                 dict(dom=cs["dom"], expression=node.tokens(), point=cs["rows"][idxs[0]][0], params=cs["rows"][idxs[0]][1], qdtype=alt))
+        return
+    if res["shape"] != (len(idxs), 1):
+        rep.fail(f"_contains returned shape {res['shape']} for {len(idxs)} rows of {alt} query points",
+                 dict(dom=cs["dom"], expression=node.tokens(), point=cs["rows"][idxs[0]][0], params=cs["rows"][idxs[0]][1], qdtype=alt))
+        return
+    compare_rows(cs, node, idxs, res["bools"], replies, rep, label)
+
+
 def run(ctx, rep, cases=None):
     rep.rule = ("domain expressions generated from the public constructors (depth in input_distribution), parameter-dependent shapes, "
                 "1-3 parameter rows paired row-wise with the query points; queries = random dyadic points + points at relative "
@@ -874,6 +964,8 @@ def run(ctx, rep, cases=None):
     fresh = cases is None
     if cases is None:
         cases = [make_case(ctx, i) for i in range(ctx.scale(150, 2500))]
+        # primitives far from the origin (half of the parallelograms / triangles long and thin): a fixed share, not left to the draw
+        cases += [make_case(ctx, len(cases) + i, force_mode="far") for i in range(ctx.scale(40, 400))]
     lines, spans = [], []
     for cs in cases:
         ls = driver_lines(cs)
@@ -915,23 +1007,9 @@ def run(ctx, rep, cases=None):
             rep.fail(f"_contains returned shape {res['shape']} for {len(cs['rows'])} rows (one truth value per row expected)",
                      dict(dom=cs["dom"], params=cs["params"], rows=cs["rows"][:3]))
             continue
-        for ri_, ((pt, env), got, rl) in enumerate(zip(cs["rows"], res["bools"], replies[a:a + n])):
-            b, m = rl.split()
-            if b == "none":
-                rep.disagree("drivers/C05.lean contains: model rejects an input the implementation accepts",
-                             dict(dom=cs["dom"], point=pt, params=env), got, rl)
-                continue
-            mg = Fr(m)
-            if mg > MARGIN:
-                rep.count("decided-with-margin")
-                if got != (b == "1"):
-                    what = ("boundary membership" if cs["mode"] == "bdry" else "membership")
-                    rep.fail(f"{what} test answers {got} but the point is {'inside' if b == '1' else 'outside'} the denoted set "
-                             f"(exact evaluation, smallest comparison slack {float(mg):.3g})",
-                             dict(dom=cs["dom"], expression=node.tokens(), point=pt, params=env))
-            else:
-                rep.count("within-margin(skipped)")
-                undecided.setdefault(len(results) - 1, []).append(ri_)
+        for ri_ in compare_rows(cs, node, range(len(cs["rows"])), res["bools"], replies[a:a + n], rep):
+            undecided.setdefault(len(results) - 1, []).append(ri_)
+        dtype_pass(cs, node, replies[a:a + n], rep)
         boundary_acceptance(cs, rep)
     kleene_all(cases, results, undecided, rep)
     operand_boundary_all(cases, rep)
@@ -965,7 +1043,8 @@ def replay(ctx, obj):
         moved_boundary_all([case], rep)
         return common.finish(ctx, rep, lean)
     if "point" in inp:
-        case = dict(id=0, mode="replay", dom=inp["dom"], params=sorted(inp["params"].keys()), rows=[(inp["point"], inp["params"])])
+        case = dict(id=0, mode="replay", dom=inp["dom"], params=sorted(inp["params"].keys()), rows=[(inp["point"], inp["params"])],
+                    alt_dtype=inp.get("qdtype"), int_rows=[0] if inp.get("qdtype") else [])
         run(ctx, rep, [case])
     else:
         case = dict(id=inp.get("seed", 0), mode="bdry", dom=inp["dom"], params=inp["params"], rows=[({}, e) for e in inp["envs"]])
